@@ -306,7 +306,9 @@ def run(ctx):
     ctx.need(part_kinds, 'add_plan_step: the kinds of steps that go into a partition were not found')
     ret_kinds = {}          # function -> step classes it can return
 
-    def kinds_of_expr(e, fn):
+    def kinds_of_expr(e, fn, depth=0):
+        if depth > 6:
+            return {'?'}
         if isinstance(e, ast.Call):
             last = (dotted(e.func) or (e.func.attr if isinstance(e.func, ast.Attribute) else '')).split('.')[-1]
             if last in step_classes:
@@ -314,13 +316,13 @@ def run(ctx):
             if last in ret_kinds:
                 return set(ret_kinds[last])
             if last in ADDERS and e.args:
-                return kinds_of_expr(e.args[0], fn)
+                return kinds_of_expr(e.args[0], fn, depth + 1)
             return {'?'}
         if isinstance(e, ast.Name):
             out = set()
             for n in walk_no_nested(fn):
                 if isinstance(n, ast.Assign) and any(isinstance(t, ast.Name) and t.id == e.id for t in n.targets):
-                    out |= kinds_of_expr(n.value, fn)
+                    out |= kinds_of_expr(n.value, fn, depth + 1)
             return out or {'?'}
         return {'?'}
     for _ in range(3):
